@@ -2,21 +2,21 @@ SPECIFICATION Spec
 CONSTANTS
   Enforce = {"C01", "C02", "C03", "C04"}
   N = 2
-  Methods = {"GET", "HEAD"}
+  Methods = {"GET"}
   Vers = {11}
-  ReqConns = {"-", "close"}
-  ReqBodies = {"none", "cl", "ch"}
+  ReqConns = {"-"}
+  ReqBodies = {"none", "cl"}
   Pends = {0, 1}
   Reads = {"none", "all"}
-  Keeps = {"handler", "drop"}
-  RespBodies = {"empty", "bytes", "stream"}
+  Keeps = {"handler"}
+  RespBodies = {"empty", "bytes"}
   RespConns = {"-"}
   Statuses = {200}
   BadAt = 0
   BadKind = ""
   Budgets = {0, 1, 99}
   HalfClosed = TRUE
-  Expects = {FALSE}
+  Expects = {FALSE, TRUE}
   UpgAt = 0
   DEV_UpgradeDropsWbuf = FALSE
   KaOn = TRUE
